@@ -64,7 +64,9 @@ def stepLine (w : World) (line : String) : World × String :=
   | ["hreq", idx, m, ck, auth, tok, s, x, newId, ver] =>
     let ck' : Option (Option Nat) := if ck = "-" then some none else ck.toNat?.map some
     let auth' : Option (Option Bytes) := if auth = "none" then some none else (hexOr auth).map some
-    match idx.toNat?, parseMethod m, ck', auth', parseTok tok, parseSfs s, parseBool x, newId.toNat?, parseHexList ver with
+    -- `s`: the abstract class, or `h<hex>`: the raw Sec-Fetch-Site header text (classified by `sfsOfHeader`)
+    let sfs' : Option Sfs := if s.startsWith "h" then (hexOr (s.drop 1).toString).map (fun v => sfsOfHeader (some v)) else parseSfs s
+    match idx.toNat?, parseMethod m, ck', auth', parseTok tok, sfs', parseBool x, newId.toNat?, parseHexList ver with
     | some i, some m, some ck, some auth, some tok, some s, some x, some nid, some ver =>
       match Gen.C46.webRoutes[i]? with
       | some r =>
